@@ -122,6 +122,14 @@ pub(crate) fn next_out(rx: &mut mpsc::UnboundedReceiver<Message>) -> (Seen, Opti
     }
 }
 
+/// like `next_out`, but the message itself is leaked: dropping a `Bytes` goes through its vtable,
+/// and CBMC explores every drop implementation of the `bytes` crate for it
+pub(crate) fn next_seen(rx: &mut mpsc::UnboundedReceiver<Message>) -> Seen {
+    let (seen, b) = next_out(rx);
+    core::mem::forget(b);
+    seen
+}
+
 pub(crate) fn out_empty(rx: &mut mpsc::UnboundedReceiver<Message>) -> bool {
     rx.len() == 0
 }
@@ -230,7 +238,7 @@ fn c03_ack_emit() {
     d.sender.as_ref().unwrap().try_send(Bytes::from_static(b"ab")).ok();
     let mut c = cx();
     let r = s.poll_for_push(&mut c);
-    let (seen, _b) = next_out(&mut w.tx_msg_rx);
+    let seen = next_seen(&mut w.tx_msg_rx);
     kani::cover!(seen.op == 1);
     kani::cover!(seen.op == 0xFF);
     assert!(matches!(r, Poll::Ready(2)), "C02.read.len: the queued frame is handed to the reader");
@@ -416,7 +424,7 @@ fn c05_do_shutdown() {
     let id: u32 = kani::any();
     let (s, d) = w.task.new_stream_shared(id, 3, Bytes::new(), 0);
     s.do_shutdown();
-    let (seen, _) = next_out(&mut w.tx_msg_rx);
+    let seen = next_seen(&mut w.tx_msg_rx);
     assert!(seen.op == 3 && seen.id == id && seen.len == 5, "C05.shutdown.finish: shutdown sends one Finish for this flow");
     assert!(out_empty(&mut w.tx_msg_rx), "C05.shutdown.single");
     assert!(s.finish_sent.load(Ordering::Relaxed), "C05.shutdown.flag: later writes are blocked");
@@ -595,7 +603,7 @@ fn c06_close_flow_local_established() {
         drop(d.disallow_read());
     }
     w.task.close_flow_local(FlowSlot::Established(d), id, inhibit);
-    let (seen, _) = next_out(&mut w.tx_msg_rx);
+    let seen = next_seen(&mut w.tx_msg_rx);
     if !fin && !inhibit {
         assert!(seen.op == 2 && seen.id == id && seen.len == 5, "C06.abort.reset: an abort tells the peer with exactly one Reset of that flow");
     } else if inhibit {
@@ -687,7 +695,7 @@ fn c15_bindrequest_reply_then_drop() {
         assert!(req.reply(accepted).is_ok(), "C15.reply.ok");
     }
     drop(req);
-    let (first, _) = next_out(&mut w.tx_msg_rx);
+    let first = next_seen(&mut w.tx_msg_rx);
     let want = if replies && accepted { 3 } else { 2 };
     assert!(first.op == want && first.id == id && first.len == 5, "C15.answer: Finish iff the application accepted this request, else Reset");
     assert!(out_empty(&mut w.tx_msg_rx), "C15.exactly_once: every bind request is answered exactly once (no second frame after reply + drop)");
